@@ -9,6 +9,7 @@ import (
 	"encoding/json"
 	"fmt"
 	"math/big"
+	"sort"
 	"time"
 
 	"github.com/youchainhq/go-youchain/common"
@@ -44,6 +45,13 @@ type Beh struct {
 	Prog  []Tok           `json:"prog"`
 	Exp   json.RawMessage `json:"exp"`
 	Setup string          `json:"setup"` // "fresh": first transaction on a reopened state; "second": after another transaction and Finalise
+	Sweep int             `json:"sweep"` // > 0: after the ample-gas run, re-run with boundary gas allotments at up to this many sites
+}
+
+// override replaces the gas forwarded at one call site (or the transaction's gas limit) by an explicit amount.
+type override struct {
+	site int    // token index of the CALL-kind site; 1 = the transaction's own call (gas limit)
+	gas  uint64 // gas argument of the call / gas limit
 }
 
 // ---------------------------------------------------------------------------------------------- program tree
@@ -140,6 +148,18 @@ type compiler struct {
 	sels  map[string][]*frame         // contract name -> the sub-programs that run its code, by selector
 	selOf map[*frame]int              // frame -> its selector at the contract whose code it runs
 	sites map[common.Hash]map[int]int // code hash -> pc -> site
+	gasAt map[int]uint64              // site -> explicit gas argument (gas sweeps)
+}
+
+var allGas = []byte{0xff, 0xff, 0xff, 0xff, 0xff, 0xff, 0xff, 0xff} // more than there is: all but 1/64
+
+// gasArg pushes an 8-byte gas argument (always the same instruction length, so that code and costs do not depend on it).
+func gasArg(u *unit, v uint64) {
+	var b [8]byte
+	for i := 0; i < 8; i++ {
+		b[7-i] = byte(v >> (8 * uint(i)))
+	}
+	u.pushBytes(b[:])
 }
 
 // assign gives every message-call frame a selector at the contract whose code it executes.
@@ -185,7 +205,7 @@ func (c *compiler) body(u *unit, f *frame) error {
 			u.push(0)
 			u.push(uint64(n.tok.Val))
 			u.pushBytes(to.Bytes())
-			u.pushBytes([]byte{0xff, 0xff, 0xff, 0xff, 0xff, 0xff, 0xff, 0xff})
+			u.pushBytes(allGas)
 			u.sites[len(u.code)] = n.site
 			u.opc(vm.CALL)
 			u.opc(vm.POP)
@@ -218,10 +238,12 @@ func (c *compiler) body(u *unit, f *frame) error {
 				return fmt.Errorf("unknown call kind %q", n.tok.Kind)
 			}
 			u.pushBytes(to.Bytes())
-			if n.tok.Gas == "one" {
-				u.push(1)
+			if g, ok := c.gasAt[n.site]; ok {
+				gasArg(u, g)
+			} else if n.tok.Gas == "one" {
+				gasArg(u, 1)
 			} else {
-				u.pushBytes([]byte{0xff, 0xff, 0xff, 0xff, 0xff, 0xff, 0xff, 0xff}) // more than there is: all but 1/64
+				u.pushBytes(allGas)
 			}
 			u.sites[len(u.code)] = n.site
 			u.opc(o)
@@ -469,9 +491,14 @@ type CallRec struct {
 	G0      string `json:"g0"`  // caller's gas after paying for the instruction (CALL*: forwarded gas already deducted)
 	G1      string `json:"g1"`  // caller's gas when it continued
 	Gin     string `json:"gin"` // callee's gas at its first instruction ("" when not entered)
+	Rev     bool   `json:"rev"` // the callee's last instruction was a REVERT that executed (a failed frame that keeps its gas)
 	Pre     *World `json:"pre"`
 	Post    *World `json:"post"`
 	depth   int
+	g0, g1  uint64
+	gin     uint64
+	lastOp  vm.OpCode // last instruction seen in the callee's own frame, and whether it raised an error
+	lastErr bool
 }
 
 // SdRec is one executed SELFDESTRUCT.
@@ -512,9 +539,10 @@ func (t *tracer) CaptureState(evm *vm.EVM, pc uint64, op vm.OpCode, gas, cost ui
 		}
 		if r.depth == depth {
 			r.Closed = true
-			r.G1 = fmt.Sprint(gas)
+			r.G1, r.g1 = fmt.Sprint(gas), gas
 			d := stack.Data()
 			r.Ok = len(d) > 0 && d[len(d)-1].Sign() != 0
+			r.Rev = !r.Ok && r.Entered && r.lastOp == vm.REVERT && !r.lastErr
 			r.Post = t.e.proj()
 		} else {
 			t.notes = append(t.notes, fmt.Sprintf("site %d was never resumed", r.Site))
@@ -526,11 +554,16 @@ func (t *tracer) CaptureState(evm *vm.EVM, pc uint64, op vm.OpCode, gas, cost ui
 		r := t.recs[t.open[len(t.open)-1]]
 		if r.depth == depth-1 && !r.Entered {
 			r.Entered = true
-			r.Gin = fmt.Sprint(gas)
+			r.Gin, r.gin = fmt.Sprint(gas), gas
 			if r.Op == "CREATE" || r.Op == "CREATE2" {
 				t.e.bind(fmt.Sprintf("K%d", r.Site), contract.Address())
 			}
 			r.Ctx = t.e.nameOf(contract.Address())
+		}
+	}
+	if len(t.open) > 0 {
+		if r := t.recs[t.open[len(t.open)-1]]; r.depth == depth-1 {
+			r.lastOp, r.lastErr = op, err != nil
 		}
 	}
 	if err != nil {
@@ -554,7 +587,8 @@ func (t *tracer) CaptureState(evm *vm.EVM, pc uint64, op vm.OpCode, gas, cost ui
 				under = true
 			}
 		}
-		r := &CallRec{Site: site, Op: op.String(), Parent: parent, Static: under, G0: fmt.Sprint(contract.Gas), Pre: t.e.proj(), depth: depth}
+		r := &CallRec{Site: site, Op: op.String(), Parent: parent, Static: under, G0: fmt.Sprint(contract.Gas), g0: contract.Gas,
+			Pre: t.e.proj(), depth: depth}
 		t.recs = append(t.recs, r)
 		t.open = append(t.open, len(t.recs)-1)
 	}
@@ -572,6 +606,16 @@ func (t *tracer) CaptureState(evm *vm.EVM, pc uint64, op vm.OpCode, gas, cost ui
 }
 
 func (t *tracer) CaptureFault(evm *vm.EVM, pc uint64, op vm.OpCode, gas, cost uint64, memory *vm.Memory, stack *vm.Stack, contract *vm.Contract, depth int, err error) error {
+	// an instruction that was shown by CaptureState and then failed; the interpreter also reports an executed REVERT
+	// here (with the "execution reverted" error), which is not a failure of the instruction
+	if op == vm.REVERT && err != nil && err.Error() == "evm: execution reverted" {
+		return nil
+	}
+	if len(t.open) > 0 {
+		if r := t.recs[t.open[len(t.open)-1]]; r.depth == depth-1 {
+			r.lastOp, r.lastErr = op, true
+		}
+	}
 	return nil
 }
 
@@ -598,8 +642,15 @@ func vmConfig(t vm.Tracer) *vm.Config {
 	return cfg
 }
 
-func runOne(b *Beh) (ev map[string]interface{}, rerr error) {
-	ev = map[string]interface{}{"ev": "Run", "exp": b.Exp, "setup": b.Setup, "panic": "", "err": ""}
+// result of one execution, kept for choosing gas sweeps
+type result struct {
+	ev    map[string]interface{}
+	recs  []*CallRec
+	codeK map[int]int // create site -> length of the code the created account ended up with
+}
+
+func runOne(b *Beh, ov *override) (*result, error) {
+	ev := map[string]interface{}{"ev": "Run", "exp": b.Exp, "setup": b.Setup, "panic": "", "err": ""}
 	root, nx, err := parseFrame(b.Prog, 0)
 	if err != nil || nx != len(b.Prog) || root.open.T != "CALL" {
 		return nil, fmt.Errorf("malformed program: %v", err)
@@ -617,7 +668,15 @@ func runOne(b *Beh) (ev map[string]interface{}, rerr error) {
 		}
 	}
 	c := &compiler{addr: e.addr, sels: map[string][]*frame{"A": nil, "B": nil, "C": nil}, selOf: map[*frame]int{},
-		sites: map[common.Hash]map[int]int{}}
+		sites: map[common.Hash]map[int]int{}, gasAt: map[int]uint64{}}
+	limit := gasLimit
+	if ov != nil {
+		if ov.site == root.site {
+			limit = ov.gas
+		} else {
+			c.gasAt[ov.site] = ov.gas
+		}
+	}
 	if err := c.assign(root); err != nil {
 		return nil, err
 	}
@@ -629,10 +688,12 @@ func runOne(b *Beh) (ev map[string]interface{}, rerr error) {
 		}
 		codes[n] = code
 	}
-	return ev, execute(b, e, c, codes, root, ev)
+	res := &result{ev: ev, codeK: map[int]int{}}
+	return res, execute(b, e, c, codes, root, res, limit)
 }
 
-func execute(b *Beh, e *env, c *compiler, codes map[string][]byte, root *frame, ev map[string]interface{}) error {
+func execute(b *Beh, e *env, c *compiler, codes map[string][]byte, root *frame, res *result, limit uint64) error {
+	ev := res.ev
 	st, _ := fixture.NewMemState()
 	helper, helper2 := fixedAddr(0x30), fixedAddr(0x31)
 	st.AddBalance(e.addr["O"], big.NewInt(5))
@@ -687,7 +748,7 @@ func execute(b *Beh, e *env, c *compiler, codes map[string][]byte, root *frame, 
 	rootRec := &CallRec{Site: root.site, Op: "CALL", Parent: -1, G0: "0", Pre: e.proj(), depth: 0}
 	t.recs = append(t.recs, rootRec)
 	t.open = append(t.open, 0)
-	cfg := &runtime.Config{Origin: e.addr["O"], GasLimit: gasLimit, Time: big.NewInt(1), BlockNumber: big.NewInt(1),
+	cfg := &runtime.Config{Origin: e.addr["O"], GasLimit: limit, Time: big.NewInt(1), BlockNumber: big.NewInt(1),
 		Value: big.NewInt(int64(root.open.Val)), State: st, EVMConfig: vmConfig(t)}
 	var left uint64
 	var xerr error
@@ -703,11 +764,20 @@ func execute(b *Beh, e *env, c *compiler, codes map[string][]byte, root *frame, 
 		ev["calls"], ev["sds"] = []*CallRec{}, []SdRec{}
 		return nil
 	}
-	rootRec.Closed, rootRec.Ok, rootRec.G1 = true, xerr == nil, fmt.Sprint(left)
+	rootRec.Closed, rootRec.Ok, rootRec.G1, rootRec.g1 = true, xerr == nil, fmt.Sprint(left), left
+	rootRec.Rev = xerr != nil && rootRec.Entered && rootRec.lastOp == vm.REVERT && !rootRec.lastErr
 	if xerr != nil {
 		ev["err"] = xerr.Error()
 	}
 	rootRec.Post = e.proj()
+	for _, r := range t.recs {
+		if (r.Op == "CREATE" || r.Op == "CREATE2") && r.Ok {
+			if a, ok := e.addr[fmt.Sprintf("K%d", r.Site)]; ok {
+				res.codeK[r.Site] = len(st.GetCode(a))
+			}
+		}
+	}
+	res.recs = t.recs
 	for _, i := range t.open[1:] {
 		t.notes = append(t.notes, fmt.Sprintf("site %d still open at the end", t.recs[i].Site))
 	}
@@ -739,14 +809,158 @@ func execute(b *Beh, e *env, c *compiler, codes map[string][]byte, root *frame, 
 	return nil
 }
 
+// ---------------------------------------------------------------------------------------------- gas sweeps
+
+// rnd is a small deterministic generator (the in-between points of a sweep depend only on the program).
+type rnd uint64
+
+func (r *rnd) next() uint64 {
+	*r = *r*6364136223846793005 + 1442695040888963407
+	return uint64(*r >> 17)
+}
+
+// points is the boundary set for a frame that consumed `used` gas in the ample run (for creations: init + deposit).
+func points(used, init uint64, r *rnd) []uint64 {
+	set := map[uint64]bool{}
+	add := func(v uint64, ok bool) {
+		if ok {
+			set[v] = true
+		}
+	}
+	add(used-1, used >= 1)
+	add(used, true)
+	add(used+1, true)
+	add(init-1, init >= 1)
+	add(init, true)
+	add(init+1, true)
+	if used > init { // inside the window in which only the code deposit cannot be paid
+		add(used-(used-init)/2, true)
+	}
+	for _, v := range []uint64{0, 1, 2, 2300, 2301, 5000} {
+		add(v, true)
+	}
+	for i := 0; i < 4 && used > 2; i++ {
+		add(1+r.next()%used, true)
+	}
+	out := make([]uint64, 0, len(set))
+	for v := range set {
+		out = append(out, v)
+	}
+	sort.Slice(out, func(i, j int) bool { return out[i] < out[j] })
+	return out
+}
+
+func carriesValue(b *Beh, site int) bool {
+	t := b.Prog[site-1]
+	return t.T == "CALL" && (t.Kind == "CALL" || t.Kind == "CALLCODE") && t.Val != 0
+}
+
+// sweeps chooses, from what the ample-gas run measured, the overrides that put the gas a frame starts with on the
+// boundary values: around what it consumed, and for creations around the cost of the init code alone and of the init
+// code plus the code deposit (reached through the gas of the enclosing message call, because CREATE / CREATE2 forward
+// what the creator has).
+func sweeps(b *Beh, res *result) (out []map[string]interface{}, ovs []override) {
+	seed := rnd(len(b.Prog)*7919 + 1)
+	for _, t := range b.Prog {
+		seed = seed*31 + rnd(len(t.T)+len(t.Kind)*3+len(t.How)*5+t.Val*7+t.Slot*11)
+	}
+	recs := res.recs
+	var creates, calls []int
+	for i, r := range recs {
+		if !r.Closed || !r.Entered || r.Site <= 0 {
+			continue
+		}
+		if r.Op == "CREATE" || r.Op == "CREATE2" {
+			creates = append(creates, i)
+		} else if b.Prog[r.Site-1].T == "CALL" {
+			calls = append(calls, i)
+		}
+	}
+	// creations first, then message calls from the innermost outwards
+	sort.SliceStable(calls, func(i, j int) bool { return recs[calls[i]].depth > recs[calls[j]].depth })
+	n := 0
+	for _, i := range append(creates, calls...) {
+		if n >= b.Sweep {
+			break
+		}
+		r := recs[i]
+		create := r.Op == "CREATE" || r.Op == "CREATE2"
+		var used uint64 // gas the frame consumed: what it started with minus what came back
+		if create {
+			used = r.g0 - r.g1 // g1 = g0 - gin + returned
+		} else {
+			used = r.gin - (r.g1 - r.g0)
+		}
+		init := used
+		if create {
+			dep := uint64(200 * res.codeK[r.Site])
+			if dep <= used {
+				init = used - dep
+			}
+		}
+		// the site whose gas argument is changed: the site itself for a message call, the enclosing message call for a creation
+		via := i
+		if create {
+			via = r.Parent
+			for via >= 0 && (recs[via].Op == "CREATE" || recs[via].Op == "CREATE2") {
+				via = -1 // a creation inside init code: not swept
+			}
+			if via < 0 {
+				continue
+			}
+		}
+		p := recs[via]
+		n++
+		for _, t := range points(used, init, &seed) {
+			want := t // gas the swept frame should start with
+			if create {
+				// the creator has g0 after paying for the instruction; it forwards all of it (CREATE) or all but 1/64 (CREATE2)
+				rem := t
+				if r.Op == "CREATE2" {
+					rem = t + t/63
+					for rem-rem/64 < t {
+						rem++
+					}
+				}
+				want = rem + (p.gin - r.g0) // plus what the enclosing frame spends before
+			}
+			arg := want
+			if via != 0 && carriesValue(b, p.Site) {
+				if want < 2300 {
+					continue
+				}
+				arg = want - 2300 // the stipend comes on top
+			}
+			if via == 0 && arg == 0 {
+				continue // a zero gas limit means "default" to runtime.Call
+			}
+			ovs = append(ovs, override{site: p.Site, gas: arg})
+			out = append(out, map[string]interface{}{"site": r.Site, "via": p.Site, "gas": fmt.Sprint(arg), "target": fmt.Sprint(t),
+				"used": fmt.Sprint(used), "init": fmt.Sprint(init)})
+		}
+	}
+	return out, ovs
+}
+
 func run(env *drive.Env) error {
 	var b Beh
 	for env.Next(&b) {
-		ev, err := runOne(&b)
+		res, err := runOne(&b, nil)
 		if err != nil {
 			return fmt.Errorf("behaviour %d: %v", env.T, err)
 		}
-		env.Emit(ev)
+		env.Emit(res.ev)
+		if b.Sweep > 0 && res.ev["panic"] == "" {
+			infos, ovs := sweeps(&b, res)
+			for i := range ovs {
+				r2, err := runOne(&b, &ovs[i])
+				if err != nil {
+					return fmt.Errorf("behaviour %d sweep %v: %v", env.T, infos[i], err)
+				}
+				r2.ev["sweep"] = infos[i]
+				env.Emit(r2.ev)
+			}
+		}
 		b = Beh{}
 	}
 	return nil
